@@ -152,6 +152,7 @@ def run_eof_state(spec):
                                       gb.Channel.receive, gb.Message._channel_close)
         todo = [(ln, k) for ln in lines for k in spec["ks"]] + [(None, i) for i in range(spec["noise_runs"])]
         peer = pairs.ScriptedPeer(tee=False)
+        peer.start_drain()
         wd = pairs.Watchdog()
         for ln, k in todo:
             if res.enough(3):
@@ -259,6 +260,7 @@ def run_read(spec):
     res = Result()
     rng = core.rng_for("C19", spec["tier"], spec["seed"], spec["shard"])
     peer = pairs.ScriptedPeer(tee=False)
+    peer.start_drain()
     wd = pairs.Watchdog()
     M = codec.MSG
     it = cases_exh(spec) if spec["kind"] == "exh" else cases_gen(spec, rng)
